@@ -90,6 +90,7 @@ ObsNow == ObsOf(open, shards, pts, sfile, known, dbdirs, rpdirs)
 
 \* Store.CreateShard(db, rp, id, enabled=true)
 CreateShard(d, r, i) ==
+  /\ kind' = NoKind                                   \* (a call consumes the ticket of SimSpec; Spec never draws one)
   /\ Len(hist) < MaxOps
   /\ UNCHANGED nwrites
   /\ IF ~open
@@ -109,6 +110,7 @@ CreateShard(d, r, i) ==
 
 \* Store.WriteToShard(id, one point of series s at time t)
 Write(i, s, t) ==
+  /\ kind' = NoKind                                   \* (a call consumes the ticket of SimSpec; Spec never draws one)
   /\ Len(hist) < MaxOps /\ nwrites < MaxWrites
   /\ i \in ever
   /\ nwrites' = nwrites + 1
@@ -132,6 +134,7 @@ Write(i, s, t) ==
 
 \* Store.DeleteShard(id): series ids held by no other shard of the database are removed from the series file
 DeleteShard(i) ==
+  /\ kind' = NoKind                                   \* (a call consumes the ticket of SimSpec; Spec never draws one)
   /\ Len(hist) < MaxOps
   /\ i \in ever
   /\ UNCHANGED <<ever, nwrites>>
@@ -151,6 +154,7 @@ DeleteShard(i) ==
 
 \* Store.DeleteRetentionPolicy(db, rp)
 DeleteRP(d, r) ==
+  /\ kind' = NoKind                                   \* (a call consumes the ticket of SimSpec; Spec never draws one)
   /\ Len(hist) < MaxOps
   /\ UNCHANGED <<ever, nwrites>>
   /\ IF d \notin known                                                                                \* Q2 (and closed store)
@@ -170,6 +174,7 @@ DeleteRP(d, r) ==
 
 \* Store.DeleteDatabase(db)
 DeleteDatabase(d) ==
+  /\ kind' = NoKind                                   \* (a call consumes the ticket of SimSpec; Spec never draws one)
   /\ Len(hist) < MaxOps
   /\ UNCHANGED <<ever, nwrites>>
   /\ IF d \notin known                                                                                \* Q2 (and closed store)
@@ -188,6 +193,7 @@ DeleteDatabase(d) ==
 
 \* Store.Close
 Close ==
+  /\ kind' = NoKind                                   \* (a call consumes the ticket of SimSpec; Spec never draws one)
   /\ Len(hist) < MaxOps /\ open
   /\ open' = FALSE /\ known' = {}
   /\ UNCHANGED <<shards, pts, sfile, nextAid, dbdirs, rpdirs, ever, leaked, nwrites, nnoop>>
@@ -196,20 +202,19 @@ Close ==
 \* Store.Open (same object or a new process): shards are found by walking <db>/<rp>/<id>; a database is known iff one
 \* of its shards was registered
 Open ==
+  /\ kind' = NoKind                                   \* (a call consumes the ticket of SimSpec; Spec never draws one)
   /\ Len(hist) < MaxOps /\ ~open
   /\ open' = TRUE /\ known' = {x[1] : x \in shards}
   /\ UNCHANGED <<shards, pts, sfile, nextAid, dbdirs, rpdirs, ever, leaked, nwrites, nnoop>>
   /\ hist' = Append(hist, [a |-> "open", err |-> "ok", exp |-> ObsOf(TRUE, shards, pts, sfile, known', dbdirs, rpdirs)])
 
-Calls == \/ \E d \in DBs, r \in RPs, i \in IDs : CreateShard(d, r, i)
-         \/ \E i \in IDs, s \in Series, t \in Times : Write(i, s, t)
-         \/ \E i \in IDs : DeleteShard(i)
-         \/ \E d \in DBs, r \in RPs : DeleteRP(d, r)
-         \/ \E d \in DBs : DeleteDatabase(d)
-         \/ Close
-         \/ Open
-
-Next == Calls /\ UNCHANGED kind
+Next == \/ \E d \in DBs, r \in RPs, i \in IDs : CreateShard(d, r, i)
+        \/ \E i \in IDs, s \in Series, t \in Times : Write(i, s, t)
+        \/ \E i \in IDs : DeleteShard(i)
+        \/ \E d \in DBs, r \in RPs : DeleteRP(d, r)
+        \/ \E d \in DBs : DeleteDatabase(d)
+        \/ Close
+        \/ Open
 
 Spec == Init /\ [][Next]_vars
 
@@ -239,7 +244,7 @@ NextSim ==
   \/ /\ kind = NoKind /\ Len(hist) < MaxOps
      /\ kind' \in {k \in Tickets : KindEnabled(k[1])}
      /\ UNCHANGED <<open, shards, pts, sfile, nextAid, known, dbdirs, rpdirs, ever, leaked, nwrites, nnoop, hist>>
-  \/ /\ kind # NoKind /\ kind' = NoKind
+  \/ /\ kind # NoKind
      /\ \/ kind[1] = "create" /\ \E d \in DBs, r \in RPs, i \in IDs : CreateShard(d, r, i)
         \/ kind[1] = "write" /\ \E i \in IDs, s \in Series, t \in Times : Write(i, s, t)
         \/ kind[1] = "delshard" /\ \E i \in IDs : DeleteShard(i)
